@@ -1,20 +1,76 @@
-"""C13 — the register abstraction is lane-wise faithful (every SimdRegister<T> method of every executable back end
-against the register models of Model/Regs.v; the theorems of Props/C13.v say those models are the lane-wise scalar
-operations for ALL register contents)."""
+"""C13 — the register abstraction is lane-wise faithful.
+
+Two ties of the register models to the code, both exercised on every run:
+ (1) TRANSLATOR + THEOREMS (Props/C13Gen.v): tools/translate_regs.py regenerates an instruction-level model of every
+     straight-line SimdRegister<T> method (impl_*.rs and the trait defaults) over the intrinsic vocabulary of
+     Model/Intrinsics.v; Coq proves that every generated definition, on the byte/lane encoding of arbitrary registers,
+     computes what the lane-level model (Model/Regs.v; NEON: the lane-wise scalar specification) says.
+ (2) CORRESPONDENCE (B) (checks/regrun.py): every method of every executable back end against the lane-level models on
+     the hardware.
+Props/C13.v says the lane-level models are the lane-wise scalar operations for ALL register contents."""
+import re
+
 from checks import regrun
 
 LEVEL = "proof"
 
+_GEN_LEMMA = re.compile(r"gen_(Fallback|Avx2Fma|Avx2|Avx512|Neon)_(?:([iuf](?:8|16|32|64))_)?(\w+?)(?:_ok)?$")
+
+
+def _restricted_b(ctx, backend, ty, method, why):
+    """Correspondence (B) on one (back end, type, method): a real divergence becomes a violation with the operands."""
+    info = {"backend": backend, "ty": ty, "method": method, "why": why[:300]}
+    if backend == "Neon":
+        info["search"] = "not executable on this host"
+        return info
+    tys = [ty] if ty in regrun.TYS else None
+    config = "nightly" if backend == "Avx512" else "stable"
+    before = len(ctx.violations)
+    regrun.run(ctx, configs=(config,), tys=tys, methods=[method])
+    found = [v["key"] for v in ctx.violations[before:]]
+    info["search"] = ("divergence found: " + ", ".join(found)) if found else "no-failing-input-found"
+    return info
+
 
 def run(ctx):
-    ctx.trusted += ["Coq 8.16.1 kernel (+ vm_compute for the shape facts and the non-vacuity example)",
-                    "Model/Regs.v: register models written from impl_*.rs, intrinsic lane semantics are ours "
-                    "(validated by correspondence B against the hardware, bit for bit)",
+    ctx.trusted += ["Coq 8.16.1 kernel (+ vm_compute for the shape facts and the non-vacuity examples)",
+                    "Model/Intrinsics.v: the meaning of the ~330 core::arch intrinsic names (x86 from the Intel pseudo-code, the "
+                    "stdarch-implemented ones and NEON from the installed rust-src, Arm ARM for FMAX/FMIN/Reduce), integer vectors "
+                    "as byte lists; tools/translate_regs.py: Rust straight-line method bodies -> Gallina over that vocabulary",
+                    "Model/Regs.v: lane-level register models (tied to the generated instruction-level model by the theorems of "
+                    "Props/C13Gen.v, and to the hardware by correspondence B, bit for bit)",
                     "Model/Prim.v: meaning of the scalar primitives (wrapping_*, Flocq IEEE operations)",
                     "harness/cfh reg mode (#[target_feature] wrappers around every trait method), ocaml/driver_reg.ml, "
                     "extraction with ExtrOcamlBasic only"]
-    ctx.assumptions += ["NEON is not executable here: no model, covered at table/source level by C10/C11 only",
+    ctx.assumptions += ["NEON is not executable here: its methods are tied by the generated model only (Props/C13Gen.v: against the "
+                        "lane-wise scalar specification), never run",
+                        "methods outside the translated fragment — load / write (raw pointers), integer div and div_dense (scalar loop "
+                        "that panics on a zero divisor), the scalar-loop NEON i64/u64 mul / max / min and what is built on them, the "
+                        "AVX2 f64 sum_to_value (poison register + bit-casts), Fallback div / elements_per_lane — are listed in evidence "
+                        "extra.generated_model.untranslated and stay tied by correspondence B only (NEON: by reading only)",
                         "load/write are modelled at index level (firstn/skipn/splice); addresses and alignment are observed "
                         "by the guard-page runs of C01/C07, not proved"]
+    facts = ctx.translate(steps=("regs",))
+    regs = (facts or {}).get("regs") or {}
+    gm = {"triples": regs.get("triples"), "translated_and_proved": 0, "translated": regs.get("translated"),
+          "untranslated": [], "restricted_searches": []}
+    by_reason = {}
+    for u in regs.get("untranslated", []):
+        by_reason.setdefault(u.get("category") or u["reason"], []).append("%s/%s/%s" % (u["reg"], u["ty"], u["method"]))
+    gm["untranslated"] = [{"reason": r, "n": len(v), "methods": v} for r, v in sorted(by_reason.items(), key=lambda kv: -len(kv[1]))]
+    for f in regs.get("failed", []):
+        gm["restricted_searches"].append(_restricted_b(ctx, f["reg"], f["ty"], f["method"], "translator: " + f["error"]))
     ctx.prove("Props/C13.v")
+    nb = len(ctx.broken)
+    if ctx.prove("Props/C13Gen.v"):
+        gm["translated_and_proved"] = regs.get("translated")
+    else:
+        for b in ctx.broken[nb:]:
+            m = _GEN_LEMMA.search((b.get("name") or "").split(" ")[0])
+            if b.get("kind") == "theorem" and m:
+                backend, ty, method = m.group(1), m.group(2) or "T", m.group(3)
+                b["detail"] = ("generated model of <%s as SimdRegister<%s>>::%s no longer refines the lane-level model: " % (
+                    backend, ty, method)) + (b.get("detail") or "")
+                gm["restricted_searches"].append(_restricted_b(ctx, backend, ty, method, b["detail"]))
+    ctx.extra["generated_model"] = gm
     regrun.run(ctx, configs=("stable", "nightly"))
